@@ -75,7 +75,9 @@ VarCtxs == {HashMapCtx(EmptyMap, Funcs, FALSE), HashMapCtx((NX :> VNat(1)), Func
             HashMapCtx((NX :> VStr(<<115>>)), Funcs, FALSE)}
 ImmCtxs == {HashMapCtx((NX :> VNat(1)), Funcs, FALSE), HashMapCtx((NX :> VBool(TRUE)), Funcs, TRUE),
             HashMapCtx(EmptyMap, Funcs, FALSE), ReadOnlyCtx(HashMapCtx((NX :> VNat(1)), Funcs, FALSE)),
-            EmptyCtx, EmptyBuiltinCtx}
+            EmptyCtx, EmptyBuiltinCtx,
+            \* a user function that shadows the builtin `max`: both walks must resolve it the same way
+            HashMapCtx((NX :> VNat(1)), Funcs @@ (<<109, 97, 120>> :> BehConst(VStr(<<117>>))), FALSE)}
 Ctxs == IF Family = "imm" THEN ImmCtxs ELSE VarCtxs
 
 Toks == Render(p, Minimal)
